@@ -306,10 +306,10 @@ type bufReaderConn struct {
 func (b *bufReaderConn) Read(p []byte) (int, error) { return b.br.Read(p) }
 
 type c09Rig struct {
-	rg                                          *rig
-	up, upTLS                                   *c09Upstream
-	specs                                       sync.Map
-	tcpA, tcpPP, sniA, dynA, wsA, tcpTLS, tcpWT string
+	rg                                                                *rig
+	up, upTLS                                                         *c09Upstream
+	specs                                                             sync.Map
+	tcpA, tcpPP, sniA, dynA, dynPPA, wsA, tcpTLS, tcpWT, tcpLPP, mixA string
 }
 
 func newC09Rig(c *ctx) (*c09Rig, error) {
@@ -330,6 +330,8 @@ func newC09Rig(c *ctx) (*c09Rig, error) {
 	upAddr := ln.Addr().String()
 	pt, pp, ps, pd, pw, dynPort, ptls := freePort(), freePort(), freePort(), freePort(), freePort(), freePort(), freePort()
 	r.tcpTLS = fmt.Sprintf("127.0.0.1:%d", ptls)
+	dynPP, plpp, pmix := freePort(), freePort(), freePort()
+	r.dynPPA, r.tcpLPP, r.mixA = fmt.Sprintf("127.0.0.1:%d", dynPP), fmt.Sprintf("127.0.0.1:%d", plpp), fmt.Sprintf("127.0.0.1:%d", pmix)
 	pwt := freePort()
 	r.tcpWT = fmt.Sprintf("127.0.0.1:%d", pwt) // a listener with a write timeout and no read timeout
 	certDir := filepath.Join(c.Dir, "c09cert")
@@ -339,7 +341,7 @@ func newC09Rig(c *ctx) (*c09Rig, error) {
 	os.WriteFile(filepath.Join(certDir, "l-key.pem"), lcrt.KeyPEM, 0o644)
 	r.tcpA, r.tcpPP, r.sniA, r.wsA = fmt.Sprintf("127.0.0.1:%d", pt), fmt.Sprintf("127.0.0.1:%d", pp), fmt.Sprintf("127.0.0.1:%d", ps), fmt.Sprintf("127.0.0.1:%d", pw)
 	r.dynA = fmt.Sprintf("127.0.0.1:%d", dynPort)
-	addr := fmt.Sprintf("%s;proto=tcp,%s;proto=tcp,%s;proto=tcp+sni,127.0.0.1:%d;proto=tcp-dynamic;refresh=1s,%s;proto=http,%s;proto=tcp;cs=cs1,%s;proto=tcp;wt=800ms", r.tcpA, r.tcpPP, r.sniA, pd, r.wsA, r.tcpTLS, r.tcpWT)
+	addr := fmt.Sprintf("%s;proto=tcp,%s;proto=tcp,%s;proto=tcp+sni,127.0.0.1:%d;proto=tcp-dynamic;refresh=1s,%s;proto=http,%s;proto=tcp;cs=cs1,%s;proto=tcp;wt=800ms,%s;proto=tcp;pxyproto=true,%s;proto=https+tcp+sni;cs=cs1", r.tcpA, r.tcpPP, r.sniA, pd, r.wsA, r.tcpTLS, r.tcpWT, r.tcpLPP, r.mixA)
 	rg, err := newRig(c, "tcp", []string{"-proxy.addr", addr, "-proxy.cs", "cs=cs1;type=path;cert=" + certDir, "-log.level", "WARN"})
 	if err != nil {
 		ln.Close()
@@ -354,6 +356,9 @@ func newC09Rig(c *ctx) (*c09Rig, error) {
 		fmt.Sprintf("route add dynsvc 127.0.0.1:%d tcp://%s", dynPort, upAddr),
 		fmt.Sprintf("route add tcptls :%d tcp://%s opts \"proto=tcp\"", ptls, upAddr),
 		fmt.Sprintf("route add tcpwt :%d tcp://%s opts \"proto=tcp\"", pwt, upAddr),
+		fmt.Sprintf("route add tcplpp :%d tcp://%s opts \"proto=tcp\"", plpp, upAddr),
+		fmt.Sprintf("route add mixsvc mix.test/ tcp://%s opts \"proto=tcp\"", upAddr),
+		fmt.Sprintf("route add dynpp 127.0.0.1:%d tcp://%s opts \"pxyproto=true\"", dynPP, upAddr),
 		fmt.Sprintf("route add wssvc ws.test/ http://%s/", upAddr),
 		fmt.Sprintf("route add wsssvc wss.test/ https://%s/ opts \"tlsskipverify=true\"", tln.Addr().String()),
 	}
@@ -362,7 +367,7 @@ func newC09Rig(c *ctx) (*c09Rig, error) {
 		r.close()
 		return nil, err
 	}
-	for _, a := range []string{r.tcpA, r.tcpPP, r.sniA, r.wsA, r.dynA, r.tcpTLS, r.tcpWT} {
+	for _, a := range []string{r.tcpA, r.tcpPP, r.sniA, r.wsA, r.dynA, r.dynPPA, r.tcpTLS, r.tcpWT, r.tcpLPP, r.mixA} {
 		if !fabioproc.WaitListening(a, 30*time.Second) {
 			r.close()
 			return nil, fmt.Errorf("listener %s did not come up\n%s", a, rg.proc.LogTail(1500))
@@ -394,7 +399,7 @@ func c09Tunnels(c *ctx) {
 		return
 	}
 	defer rg.close()
-	hello := map[string][]byte{"sni.test": c09Hello("sni.test"), "snipp.test": c09Hello("snipp.test")}
+	hello := map[string][]byte{"sni.test": c09Hello("sni.test"), "snipp.test": c09Hello("snipp.test"), "mix.test": c09Hello("mix.test")}
 	if len(hello["sni.test"]) == 0 {
 		c.R.Inconcl("cannot capture a ClientHello")
 		return
@@ -411,7 +416,7 @@ func c09Tunnels(c *ctx) {
 			r := c.rng(int64(900 + g))
 			for i := g; i < n; i += G {
 				sp := &c09Spec{ID: fmt.Sprintf("%016x", uint64(seq.Add(1))|uint64(c.Seed)<<40), upDone: make(chan struct{})}
-				sp.Kind = choose(r, []string{"tcp", "tcp-pp", "sni", "sni", "sni-pp", "dyn", "ws", "ws", "wss", "tcp-tls", "tcp-tls", "tcp-wt"})
+				sp.Kind = choose(r, []string{"tcp", "tcp-pp", "sni", "sni", "sni-pp", "dyn", "ws", "ws", "wss", "tcp-tls", "tcp-tls", "tcp-wt", "dyn-pp", "tcp-lpp", "mix"})
 				sp.SeedC, sp.SeedU = r.Uint64(), r.Uint64()
 				size := func() int64 {
 					switch x := r.Intn(12); {
@@ -471,9 +476,9 @@ func c09Tunnels(c *ctx) {
 
 func c09Conn(c *ctx, rg *c09Rig, sp *c09Spec, hello map[string][]byte, r *rand.Rand, bc, bu *atomic.Int64) {
 	c.R.Eval(1)
-	addr := map[string]string{"tcp": rg.tcpA, "tcp-pp": rg.tcpPP, "sni": rg.sniA, "sni-pp": rg.sniA, "dyn": rg.dynA, "ws": rg.wsA, "wss": rg.wsA, "tcp-tls": rg.tcpTLS, "tcp-wt": rg.tcpWT}[sp.Kind]
+	addr := map[string]string{"tcp": rg.tcpA, "tcp-pp": rg.tcpPP, "sni": rg.sniA, "sni-pp": rg.sniA, "dyn": rg.dynA, "ws": rg.wsA, "wss": rg.wsA, "tcp-tls": rg.tcpTLS, "tcp-wt": rg.tcpWT, "dyn-pp": rg.dynPPA, "tcp-lpp": rg.tcpLPP, "mix": rg.mixA}[sp.Kind]
 	class := fmt.Sprintf("%s/w%d/pause=%v/slow=%v/%s", sp.Kind, sp.WriteMax, sp.Pause, sp.SlowRead, sp.Close)
-	if strings.HasPrefix(sp.Kind, "sni") {
+	if c09IsSNI(sp.Kind) {
 		class += "/hello-" + sp.HelloMode
 	}
 	if strings.HasPrefix(sp.Kind, "ws") {
@@ -514,10 +519,19 @@ func c09Conn(c *ctx, rg *c09Rig, sp *c09Spec, hello map[string][]byte, r *rand.R
 	prelude := []byte("VC" + sp.ID + "\r\n")
 	var sniHello []byte
 	switch sp.Kind {
-	case "sni", "sni-pp":
+	case "tcp-lpp":
+		// the listener accepts an optional PROXY protocol header from the client side; it is consumed by fabio
+		if sp.HelloMode == "alone" || sp.HelloMode == "split" {
+			fmt.Fprintf(conn, "PROXY TCP4 192.0.2.7 198.51.100.9 4711 443\r\n")
+		}
+		conn.Write(prelude)
+	case "sni", "sni-pp", "mix":
 		name := "sni.test"
 		if sp.Kind == "sni-pp" {
 			name = "snipp.test"
+		}
+		if sp.Kind == "mix" {
+			name = "mix.test"
 		}
 		sniHello = hello[name]
 		switch sp.HelloMode {
@@ -600,7 +614,7 @@ func c09Conn(c *ctx, rg *c09Rig, sp *c09Spec, hello map[string][]byte, r *rand.R
 	defer sp.mu.Unlock()
 	bc.Add(sp.upGot)
 	bu.Add(ver.off)
-	if sp.C2U >= 64<<10 && sp.U2C >= 64<<10 || sp.HelloMode != "alone" && strings.HasPrefix(sp.Kind, "sni") || strings.Contains(sp.Close, "halfclose") {
+	if sp.C2U >= 64<<10 && sp.U2C >= 64<<10 || sp.HelloMode != "alone" && c09IsSNI(sp.Kind) || strings.Contains(sp.Close, "halfclose") {
 		c.R.Nontrivial(class)
 	}
 	select {
@@ -608,7 +622,7 @@ func c09Conn(c *ctx, rg *c09Rig, sp *c09Spec, hello map[string][]byte, r *rand.R
 	default:
 		if sp.upLocal == "" {
 			sig := "client-to-upstream-incomplete"
-			if strings.HasPrefix(sp.Kind, "sni") && sp.HelloMode == "coalesced" {
+			if c09IsSNI(sp.Kind) && sp.HelloMode == "coalesced" {
 				sig += ":bytes-sent-with-clienthello"
 			}
 			viol(sig, fmt.Sprintf("the upstream never received the first %d bytes of the client's stream (client send error: %v)", c09Prelude, serr))
@@ -634,7 +648,7 @@ func c09Conn(c *ctx, rg *c09Rig, sp *c09Spec, hello map[string][]byte, r *rand.R
 	}
 	if sp.upBad != "" {
 		sig := "client-to-upstream-corrupt"
-		if strings.HasPrefix(sp.Kind, "sni") && sp.HelloMode == "coalesced" {
+		if c09IsSNI(sp.Kind) && sp.HelloMode == "coalesced" {
 			sig += ":bytes-sent-with-clienthello"
 		}
 		viol(sig, "upstream: "+sp.upBad)
@@ -646,7 +660,7 @@ func c09Conn(c *ctx, rg *c09Rig, sp *c09Spec, hello map[string][]byte, r *rand.R
 	}
 	if sp.upGot != sp.C2U {
 		sig := "client-to-upstream-incomplete"
-		if strings.HasPrefix(sp.Kind, "sni") && sp.HelloMode == "coalesced" {
+		if c09IsSNI(sp.Kind) && sp.HelloMode == "coalesced" {
 			sig += ":bytes-sent-with-clienthello"
 		}
 		viol(sig, fmt.Sprintf("upstream received %d of the %d bytes the client sent (client send error: %v, upstream error: %q)", sp.upGot, sp.C2U, serr, sp.upErr))
@@ -660,3 +674,6 @@ func c09Conn(c *ctx, rg *c09Rig, sp *c09Spec, hello map[string][]byte, r *rand.R
 		c.R.Sample(map[string]any{"class": class, "client_to_upstream_bytes": sp.upGot, "upstream_to_client_bytes": ver.off})
 	}
 }
+
+// c09IsSNI: kinds whose stream starts with a ClientHello that fabio routes on and passes on.
+func c09IsSNI(kind string) bool { return strings.HasPrefix(kind, "sni") || kind == "mix" }
